@@ -262,9 +262,16 @@ func (sh *blobAccessMutableProtoHandle[T, TProto]) removeOrQueueForWriteLocked()
 		ss := sh.store
 		if sh.writtenVersion == sh.currentVersion {
 			// No changes were made to the message. Simply
-			// discard this handle.
-			delete(ss.handles, sh.digest)
-			blobAccessMutableProtoHandlesDestroyed.Inc()
+			// discard this handle. It may have been queued
+			// for writing once more while the write that
+			// just completed was still in flight. Also, only
+			// remove it from the map if it has not been
+			// replaced by a newer handle in the meantime.
+			sh.removeFromWriteQueueLocked()
+			if ss.handles[sh.digest] == sh {
+				delete(ss.handles, sh.digest)
+				blobAccessMutableProtoHandlesDestroyed.Inc()
+			}
 		} else if sh.handlesToWriteIndex < 0 {
 			// Changes were made and we're not queued. Place
 			// handle in the queue.
@@ -272,6 +279,21 @@ func (sh *blobAccessMutableProtoHandle[T, TProto]) removeOrQueueForWriteLocked()
 			ss.handlesToWrite = append(ss.handlesToWrite, sh)
 			blobAccessMutableProtoHandlesQueued.Inc()
 		}
+	}
+}
+
+// removeFromWriteQueueLocked removes the handle from the list of
+// handles that are queued for writing, if it is part of it.
+func (sh *blobAccessMutableProtoHandle[T, TProto]) removeFromWriteQueueLocked() {
+	if i := sh.handlesToWriteIndex; i >= 0 {
+		ss := sh.store
+		newLength := len(ss.handlesToWrite) - 1
+		lastHandle := ss.handlesToWrite[newLength]
+		ss.handlesToWrite[i] = lastHandle
+		lastHandle.handlesToWriteIndex = i
+		ss.handlesToWrite[newLength] = nil
+		ss.handlesToWrite = ss.handlesToWrite[:newLength]
+		sh.handlesToWriteIndex = -1
 	}
 }
 
